@@ -344,7 +344,9 @@ class Backtest(object):
         defined as the lesser of positive or negative outlays divided by NAV
         """
         s = self.strategy
-        outlays = s.outlays
+        # keep the date index even when there is no security (hence no
+        # outlay column): no trades means a turnover of zero, not NaN
+        outlays = s.outlays.reindex(s.values.index)
 
         # seperate positive and negative outlays, sum them up, and keep min
         outlaysp = outlays[outlays >= 0].fillna(value=0).sum(axis=1)
